@@ -23,7 +23,7 @@ let enc (s : string) : string =
     let b = Buffer.create (String.length s) in
     String.iter (fun c ->
       let k = Char.code c in
-      if k > 0x20 && k < 0x7f && not (String.contains ",/;=~|%-" c) then Buffer.add_char b c
+      if k > 0x20 && k < 0x7f && not (String.contains ",/;=~|%-[]!>&" c) then Buffer.add_char b c
       else Buffer.add_string b (Printf.sprintf "%%%02X" k)) s;
     Buffer.contents b
   end
@@ -128,7 +128,7 @@ let canon_tree ((acts, p) : trace) (pair_calls : bool) (made : string) : string 
           | ANewBencher _ :: AInvoke (id, _, arg) :: _ ->
             "C" ^ string_of_n id ^ (match arg with None -> "" | Some (_, v) -> "=" ^ render_val v)
           | _ -> "NOCALL" in
-        items := ("X:" ^ enc (ts path) ^ "#" ^ call) :: !items
+        items := ("X:" ^ enc (ts path) ^ "=" ^ call) :: !items
       end else items := ("X:" ^ enc (ts path)) :: !items;
       go tl
     | _ :: tl -> go tl in
@@ -211,7 +211,7 @@ let read_tree body =
 let executed_paths items =
   List.filter_map (fun it ->
     if String.length it > 2 && it.[0] = 'X' then
-      let (p, _) = split_first '#' (String.sub it 2 (String.length it - 2)) in Some (dec p)
+      let (p, _) = split_first '=' (String.sub it 2 (String.length it - 2)) in Some (dec p)
     else None) items
 
 let has_mismatch items = List.exists (fun it -> String.length it >= 8 && String.sub it 0 8 = "MISMATCH") items
